@@ -37,6 +37,11 @@ type C05StreamCase struct {
 	// V6: an IPv6 allocation (IPv6 relay, IPv6 peers) on a server whose InboundMTU admits the largest
 	// datagrams: lengths up to 65507 can then be relayed whole - or must be refused, never mangled
 	V6 bool `json:"v6,omitempty"`
+	// Writers > 0: after the datagrams above, that many application goroutines write to the three
+	// peers at the same time (six datagrams each), over a transport whose receiver takes Window
+	// bytes at a time (0 = no limit) - a Write call's bytes then leave in several pieces
+	Writers int `json:"writers,omitempty"`
+	Window  int `json:"window,omitempty"`
 }
 
 type c05sResult struct {
@@ -45,6 +50,7 @@ type c05sResult struct {
 	viaChannels int
 	refused     int
 	dropped     int
+	concurrent  int
 }
 
 func payload05(d *Datagram05) []byte {
@@ -255,6 +261,79 @@ func runC05StreamInner(c *C05StreamCase) (res c05sResult) { //nolint:cyclop
 		}
 		res.delivered++
 	}
+	if c.Writers > 0 {
+		// every peer has been written to and its binding has had time to stand
+		for pi := range peers {
+			if !written[pi] {
+				if _, werr := relay.WriteTo([]byte("hello"), &net.UDPAddr{IP: peers[pi].Local().IP, Port: 7000}); werr != nil {
+					return fail("relayed-write-failed", "first contact with peer %d: %v", pi, werr)
+				}
+			}
+		}
+		time.Sleep(3 * time.Second)
+		synctest.Wait()
+		for _, p := range peers {
+			for {
+				if _, _, more := p.TryRead(); !more {
+					break
+				}
+			}
+		}
+		conn.Peer().SetRecvWindow(c.Window)
+		want := make([]map[string]bool, len(peers))
+		for i := range want {
+			want[i] = map[string]bool{}
+		}
+		var wg sync.WaitGroup
+		var wmu sync.Mutex
+		var werrs []string
+		for w := 0; w < c.Writers; w++ {
+			for k := 0; k < 6; k++ {
+				d := Datagram05{N: 200 + (w*131+k*977)%1100, Seed: uint64(w*100 + k + 1)}
+				pl := payload05(&d)
+				copy(pl, fmt.Sprintf("writer%02d-%d:", w, k))
+				want[(w+k)%len(peers)][string(pl)] = true
+			}
+			wg.Add(1)
+			go func(w int) {
+				defer wg.Done()
+				for k := 0; k < 6; k++ {
+					d := Datagram05{N: 200 + (w*131+k*977)%1100, Seed: uint64(w*100 + k + 1)}
+					pl := payload05(&d)
+					copy(pl, fmt.Sprintf("writer%02d-%d:", w, k))
+					pi := (w + k) % len(peers)
+					if _, werr := relay.WriteTo(pl, &net.UDPAddr{IP: peers[pi].Local().IP, Port: 7000}); werr != nil {
+						wmu.Lock()
+						werrs = append(werrs, werr.Error())
+						wmu.Unlock()
+					}
+				}
+			}(w)
+		}
+		wg.Wait()
+		synctest.Wait()
+		conn.Peer().SetRecvWindow(0)
+		if len(werrs) > 0 {
+			return fail("relayed-write-failed", "%d concurrent writers: WriteTo failed: %s", c.Writers, werrs[0])
+		}
+		for pi, p := range peers {
+			for {
+				data, _, more := p.TryRead()
+				if !more {
+					break
+				}
+				if !want[pi][string(data)] {
+					return fail("concurrent-writes-garbled", "%d concurrent writers (window %d): peer %d received %d bytes (%q...) that no writer sent to it, or a second copy", c.Writers, c.Window, pi, len(data), data[:min(len(data), 14)])
+				}
+				delete(want[pi], string(data))
+				res.delivered++
+			}
+			if len(want[pi]) > 0 {
+				return fail("concurrent-writes-garbled", "%d concurrent writers (window %d): %d datagrams written to peer %d never arrived", c.Writers, c.Window, len(want[pi]), pi)
+			}
+		}
+		res.concurrent = c.Writers
+	}
 	for _, l := range logger.Lines() {
 		if strings.Contains(l, "Channel binding successful") {
 			res.viaChannels++
@@ -285,6 +364,10 @@ func genC05Stream(rt *rapid.T) *C05StreamCase {
 		d.Pause = rapid.SampledFrom([]int{0, 0, 0, 50, 1000}).Draw(rt, "pause")
 		c.Datagrams = append(c.Datagrams, d)
 	}
+	if rapid.IntRange(0, 1).Draw(rt, "concurrentWriters") == 0 {
+		c.Writers = rapid.IntRange(2, 8).Draw(rt, "writers")
+		c.Window = rapid.SampledFrom([]int{0, 64, 256, 700}).Draw(rt, "window")
+	}
 	if rapid.IntRange(0, 2).Draw(rt, "v6") == 0 {
 		// an IPv6 allocation and, here and there, a datagram near the largest size
 		c.V6 = true
@@ -314,6 +397,7 @@ func TestC05ClientStream(t *testing.T) {
 		if c.V6 {
 			r.Label("e2e-stream:ipv6-allocation")
 		}
+		r.LabelN("e2e-stream:concurrent-writers", res.concurrent)
 		odd := false
 		for _, d := range c.Datagrams {
 			odd = odd || d.N%4 != 0
